@@ -159,7 +159,8 @@ func Gen(r *rng.R, pf Profile) *Spec {
 			}
 		}
 		if pf.Platforms && r.Chance(1, 4) {
-			t.Platforms = rng.Pick(r, [][]string{{"linux/amd64"}, {"darwin/arm64"}, {"linux/amd64", "darwin/arm64"}, {"windows/amd64"}})
+			t.Platforms = rng.Pick(r, [][]string{{"linux/amd64"}, {"darwin/arm64"}, {"linux/amd64", "darwin/arm64"}, {"windows/amd64"},
+				{"linux/arm64", "darwin/amd64"}, {"darwin/amd64", "linux/arm64", "windows/arm64"}, {"linux/arm64"}, {"darwin/amd64", "linux/amd64"}})
 		}
 		if pf.SleepMs > 0 {
 			t.SleepMs = r.Intn(pf.SleepMs + 1)
